@@ -167,13 +167,17 @@ def space(tier):
     for p in try_family():
         if p not in core:
             out.append(('try6', p))
-    for p in loops3_family():
-        if p not in core:
+    for i, p in enumerate(loops3_family()):
+        if p not in core and (tier != 'quick' or i % 4 == 0):     # quick: every 4th
             out.append(('loops3', p))
     for p in ps.programs(kctl, 2, ctl=True):
         if p not in core:
             out.append(('ctl', p))
-    for p in feature_programs(kfeat):
+    light = {n for n in features.FEATURES if n.startswith(('comp-in-', 'plain-comp-in-', 'self-rhs-'))}
+    for p in feature_programs(kfeat, names=set(features.FEATURES) - light):
+        out.append(('feat', p))
+    # the expression-position families are about the construct itself: skeletons one node smaller
+    for p in feature_programs(kfeat - 1, names=light):
         out.append(('feat', p))
     for i, p in enumerate(feature_pairs()):
         if tier != 'quick' or i % 4 == 0:      # quick: every 4th pair
@@ -204,7 +208,7 @@ def run_names(ctx, prop):
     ctx.level = 'model_checking'
     sp = space(ctx.tier)
     n = len(sp)
-    step = 150
+    step = 40
     units = [(ctx.tier, prop, lo, min(n, lo + step)) for lo in range(0, n, step)]
     ctx.pmap(unit, ctx.shuffled(units), chunksize=1)
     c = ctx.counters
